@@ -276,6 +276,8 @@ def obligation_name(unit, e, origins, text):
             # nearest label comment above
             lines = text.split('\n')
             for j in range(line - 1, max(line - 400, 0), -1):
+                if origins[j][0] != o:
+                    break
                 m = re.search(r'//@label (\S+)', lines[j])
                 if m:
                     where += '/' + m.group(1)
@@ -423,6 +425,9 @@ def verdict(prop, tier, seed, pdef, results, extra, wall):
     )
     rc = 0
     lines = []
+    if os.environ.get('VERIF_DEV'):
+        for ur, e in violations:
+            print('--- %s\n%s' % (e['obligation'], e['text']))
     if violations:
         new = []
         for ur, e in violations:
